@@ -309,6 +309,35 @@ def run_c19(prop, cfg, tier, seed):
             tool_runs += 1
         if len(outs) != 1:
             tool_viol.append((g, flags, len(outs)))
+    # the optimizer (ast.Optimize on identical copies, in process) and the whole pipeline on generated grammars shaped
+    # for it (shared leaf rules, mergeable choices with duplicate members): fresh pigeon processes, byte comparison
+    from . import tool_check
+    from concurrent.futures import ThreadPoolExecutor
+    emit = os.path.join(core.BUILD, "work", "C19_emit")
+    import shutil
+    shutil.rmtree(emit, ignore_errors=True)
+    nopt = 600 if tier == "quick" else 8000
+    ro = tool_check.run_tool("pvopt", seed, nopt, ["-lift", "optmerge-inverted,optshare,optthrow", "-det", "12" if tier == "quick" else "30", "-k", "1", "-emit", emit],
+                             pigeon=False, prop=prop)
+    opt_nd = [f for f in (ro.get("failures") or []) if f.get("kind") == "nondeterministic-optimizer"]
+    flagsets = [["-optimize-grammar"], ["-optimize-grammar", "-optimize-parser", "-optimize-basic-latin"], ["-support-left-recursion"]]
+    files = sorted(os.listdir(emit))[:(40 if tier == "quick" else 400)] if os.path.isdir(emit) else []
+
+    def pipeline(job):
+        f, fl = job
+        outs = set()
+        for _ in range(reps):
+            q = subprocess.run([pig] + fl + [os.path.join(emit, f)], stdin=subprocess.DEVNULL, stdout=subprocess.PIPE, stderr=subprocess.PIPE, timeout=120)
+            outs.add(hashlib.sha256(q.stdout + b"|" + q.stderr + b"|" + str(q.returncode).encode()).hexdigest())
+        return f, fl, len(outs)
+    with ThreadPoolExecutor(max_workers=max(2, core.NCPU)) as ex:
+        for f, fl, n in ex.map(pipeline, [(f, fl) for f in files for fl in flagsets]):
+            tool_runs += reps
+            if n != 1:
+                keep = os.path.join(core.VERIF, "replays", prop)
+                os.makedirs(keep, exist_ok=True)
+                shutil.copyfile(os.path.join(emit, f), os.path.join(keep, f))
+                tool_viol.append((os.path.join(keep, f), fl, n))
     printed = []
     nviol = 0
 
@@ -327,6 +356,10 @@ def run_c19(prop, cfg, tier, seed):
         rep("nondeterminism", {"mid_case": cl, "det": dl[:2000], "why": why, "replay_cmd": "echo '<mid_case>' | /verif/build/bin/pvmid -det 200"}, True)
     for cl, dl, ml in disagree:
         rep("correspondence", {"mid_case": cl, "det": dl[:2000], "model": ml[:2000], "why": "PrepareGrammar's result differs from the model with sorted visiting order"}, False)
+    for f in opt_nd:
+        f = tool_check.keep_failure_file(prop, dict(f))
+        rep("nondeterminism", {"why": "ast.Optimize gives different results on identical copies of one grammar: " + str(f.get("detail"))[:600], "file": f.get("file"),
+                               "replay_cmd": "/verif/build/bin/pvopt -seed %d -n %d -det 30" % (seed, nopt)}, True)
     for g, flags, n in tool_viol:
         rep("nondeterminism", {"grammar": g, "flags": flags, "why": "%d different outputs of pigeon for the same grammar and flags" % n,
                                "replay_cmd": "for i in 1 2 3 4 5 6; do /verif/build/bin/pigeon %s %s | sha256sum; done" % (" ".join(flags), g)}, True)
@@ -338,11 +371,12 @@ def run_c19(prop, cfg, tier, seed):
            "evaluations": len(gl) * k + tool_runs, "distinct_nontrivial": len(gl) + len(sel),
            "rule": "each generated grammar is analysed %d times in one process by builder.PrepareGrammar (Go map order varies per call) and all outcomes (flags of every node, left-recursive set, leader, verdict) must be identical and equal to the model's result for the sorted visiting order; %d Makefile generation rules (+ corpus grammars) are run %d times in fresh processes and compared byte for byte" % (k, len(sel), reps),
            "grammars": len(gl), "in_process_builds": len(gl) * k, "tool_runs": tool_runs,
+           "optimizer_determinism": {"grammars": ro.get("evaluations"), "nondeterministic": len(opt_nd), "pipeline_grammars": len(files), "flag_sets": flagsets},
            "samples": [{"case": gl[0], "det": det[0][:300]}] if gl else [],
            "explanation": "determinism is decided by repeated execution under Go's randomised map order plus a kernel-checked proof that the (repaired) analysis visits rules in an order that does not depend on the map order"}
     core.write_evidence(prop, tier, seed, cfg.get("level", "proof"), cov,
                         ["byte-identity of the emitted file beyond the analysis (emission order = grammar order) is checked by execution only"], wall, nviol)
     for l in printed:
         print(l)
-    log("%s: %d grammars x %d builds, %d tool runs, %d violations, %d disagreements, lean_ok=%s %.1fs" % (prop, len(gl), k, tool_runs, len(viol) + len(tool_viol), len(disagree), lean_ok, wall))
+    log("%s: %d grammars x %d builds, %d tool runs, %d violations, %d disagreements, lean_ok=%s %.1fs" % (prop, len(gl), k, tool_runs, len(viol) + len(tool_viol) + len(opt_nd), len(disagree), lean_ok, wall))
     return 1 if nviol else 0
